@@ -119,7 +119,7 @@ def main():
                 if len(ins) < 2:
                     ins.append(rand_input())
                 progs.append(('generated/' + name, b, ins))
-    maxsteps = 300000 if not ck.thorough() else 3000000
+    maxsteps = 100000 if not ck.thorough() else 3000000
     seeds = [1, 2, 3]
     dist = {'judged': 0, 'not_well_behaved': 0, 'no_exit_within_budget': 0}
     why_counts = {}
